@@ -317,12 +317,13 @@ def fmt_sources(f):
     return out
 
 
+# label -> accepted sources (the internal problem held in `data` / `cones`)
 HEADER = [
-    ('variables', ['arg3.n']),
-    ('constraints', ['arg3.m']),
-    ('nnz(P)', ['nnz(arg3.P)']),
-    ('nnz(A)', ['nnz(arg3.A)']),
-    ('cones (total)', ['len(arg4)']),
+    ('variables', [['arg3.n'], ['ncols(arg3.A)'], ['len(arg3.q)']]),
+    ('constraints', [['arg3.m'], ['nrows(arg3.A)'], ['len(arg3.b)']]),
+    ('nnz(P)', [['nnz(arg3.P)'], ['len(arg3.P.nzval)']]),
+    ('nnz(A)', [['nnz(arg3.A)'], ['len(arg3.A.nzval)']]),
+    ('cones (total)', [['len(arg4)'], ['len(arg4.cones)'], ['len(arg3.cones)']]),
     ('presolve: removed', None),
 ]
 
@@ -338,13 +339,33 @@ def table_and_header(rep, F, tag):
         ipp = [c for c in s.calls if c.callee.name == 'post_process' and (c.callee.trait or '').endswith('Info')][0]
         R.check(len(ps) >= 2, 'print_status-sites' + tag, '%d print_status sites' % len(ps))
         stop = set(c.bb for c in ss) | {ipp.bb}
+        # the table only exists when verbose is on: follow only the verbose==true edge of any verbose test
+        # (a print_status that is skipped because verbose is false is not a missing row)
+        vt = {sw: ts for sw, ts, k in verbose_true_edges(s) if k.endswith('.verbose')}
+
+        def succ(b):
+            return [vt[b]] if b in vt else s.succ[b]
+
+        def path_avoiding(src, dst, avoid):
+            av = set(avoid) - {src, dst}
+            seen = set()
+            st = list(succ(src))
+            while st:
+                x = st.pop()
+                if x == dst:
+                    return True
+                if x in seen or x in av:
+                    continue
+                seen.add(x)
+                st.extend(succ(x))
+            return False
         for c in ss:
             for tgt in stop:
                 if tgt == c.bb:
                     # a cycle back to itself without printing
-                    bad = s.paths_exist_avoiding(c.bb, c.bb, [p.bb for p in ps])
+                    bad = path_avoiding(c.bb, c.bb, [p.bb for p in ps])
                 else:
-                    bad = s.paths_exist_avoiding(c.bb, tgt, [p.bb for p in ps] + [x for x in stop if x not in (tgt, c.bb)])
+                    bad = path_avoiding(c.bb, tgt, [p.bb for p in ps] + [x for x in stop if x not in (tgt, c.bb)])
                 R.check(not bad, 'printed|save@%d->%s%s' % (ss.index(c), 'post_process' if tgt == ipp.bb else 'save', tag),
                         'the scalars recorded by save_scalars (line %d) can be overwritten or reported without a '
                         'print_status in between: the progress table would not end at the reported iteration count' % c.line,
@@ -382,7 +403,7 @@ def table_and_header(rep, F, tag):
                 R2.check(len(got) == 1 and got[0].startswith('count_reduced(arg3.presolver'), 'source|%s%s' % (label, tag),
                          'header line "%s" formats %s, expected presolver.count_reduced()' % (label, got), f.loc(hits[0][2].sp))
             else:
-                R2.check(got == want, 'source|%s%s' % (label, tag), 'header line "%s" formats %s, expected %s' % (label, got, want),
+                R2.check(got in want, 'source|%s%s' % (label, tag), 'header line "%s" formats %s, expected one of %s' % (label, got, want),
                          f.loc(hits[0][2].sp))
         # count_reduced = mfull - mreduced
         cr = F.one(name='count_reduced', adt='Presolver')
